@@ -38,6 +38,9 @@ pub static DEF: PropertyDef = PropertyDef {
         "save.multi_flow",
         "probe.snapshot_restored",
     ],
+    timeout_s: 30,
+    hang_class: None,
+    sub_builds: &[],
 };
 
 pub fn c02_profile() -> GenProfile {
